@@ -99,6 +99,14 @@ CHECKS = {
             'round-trips for JSON-native data and degrade unknown objects to repr in dev mode.',
             'look-alike JSON text and late <html> markers may be labelled either way; non-tabular shapes are not sent down the HTML path (O10)',
             'DESIGN.md §4 C17'),
+    'C16': ('exploration',
+            'Hypothesis rule-based state machine with a harness-owned clock and a ledger of every issued cookie (history invariant) + generated Cookie header values',
+            'Histories of set/delete/clear/read requests by two clients, clock advances around the expiry, replays of any issued '
+            'cookie and 12 tampering operators are run against a server with SignedCookieMiddleware; for the exact cookie string '
+            'sent the ledger decides what may be presented (that entry\'s data if intact and unexpired, otherwise an empty cookie) '
+            'and the response must be a normal 200; a second campaign mutates a valid cookie value structurally and freely.',
+            'clock is patched from outside into the two modules that read it; lenient base64 and the whole-second expiry window allow two outcomes in narrow, stated cases',
+            'DESIGN.md §4 C16'),
 }
 
 PENDING_REASON = 'check not built yet in this session (planned, see DESIGN.md §4); not claimed until it runs quietly on the unchanged tree'
